@@ -14,7 +14,7 @@ pub fn prop() -> Prop {
   Prop {
     id: "C09",
     rule: "case = (operator in debounce(w) / throttle_time(w, edge) / throttle(item-dependent window, edge) / sample(interval(p)) / buffer_with_time(p) / buffer_with_count_and_time(n,p); w in {0,1,2,3,5}, p in {1,2,3,5}, n in 1..3, all three throttle edges; timed script of <= 10 steps (one case in eight: a burst of 35..75 items with gaps mostly shorter than the window) over a hot source with uniquely numbered items: emit, advance 1..3 ticks with a prompt executor, or advance and let the due timers' tasks run only *after* the next emission (same-instant source event before the timer task), one terminal (complete or error); local / per-node _threads / thread-safe build). \
-           Oracle: (i) outputs consist of source items only, each at most once, in source order; buffers are non-empty, never longer than n, and their concatenation is the whole source when it completed; (ii) the (virtual time, notification) list equals a discrete-event reference model: debounce emits an item iff no newer item arrived before its timer task ran and always the last one on completion; throttle emits the window-opening item on the leading edge and the last item that arrived inside the window on the trailing edge (on completion the pending trailing item may be flushed or dropped); sample/buffers release exactly what was gathered since the previous tick. Non-trivial: >= 2 items inside one window/period, or a source event at the same instant as a timer expiry. Distinct by hash(case). \
+           Oracle: (i) outputs consist of source items only, each at most once, in source order; buffers are non-empty, never longer than n, and their concatenation is the whole source when it completed; (ii) the (virtual time, notification) list equals a discrete-event reference model: debounce emits an item iff no newer item arrived before its timer task ran and always the last one on completion; throttle emits the window-opening item on the leading edge and the last item that arrived inside the window on the trailing edge (a window cut short by the source's completion has its trailing edge at the completion: the pending trailing item is delivered right before it, as the library's own tailing tests pin down); sample/buffers release exactly what was gathered since the previous tick. Non-trivial: >= 2 items inside one window/period, or a source event at the same instant as a timer expiry. Distinct by hash(case). \
            Part `threads` (engine T): a producer thread pushes 1..4 numbered items and then completes a SubjectThreads feeding buffer_with_time / buffer_with_count_and_time / debounce / throttle_time on a harness-driven multi-thread scheduler, while a worker thread advances the clock and runs the queued timer tasks; the probe callback contains a yield point (slow consumer); schedule = <= 3 preemptions at lock-acquisition granularity. Oracle (model-free part (i) only): source items only, at most once, in order; buffers non-empty and bounded; after completion and a final drain the buffers concatenate to the whole source.",
     assumptions: &[
       "scheduler = FIFO local pool on the virtual clock; a delayed task's timer is armed when the executor first polls it (right after the emission that scheduled it)",
@@ -543,8 +543,7 @@ fn judge(case: &Case, tr: &Trace) -> Result<(), (String, String)> {
   }
   // (ii) exact timed sequence from the reference model
   let (exp_a, _) = simulate(case, true);
-  let (exp_b, _) = simulate(case, false);
-  if got != exp_a && got != exp_b {
+  if got != exp_a {
     let fmt = |x: &Vec<(u64, Ev)>| x.iter().map(|(t, e)| format!("{}@t={}", ev_short(e), t)).collect::<Vec<_>>().join(" ");
     let kind = if got.iter().map(|x| &x.1).eq(exp_a.iter().map(|x| &x.1)) { "timing" } else { "sequence" };
     return Err((format!("{kind}:{name}"), format!("expected [{}] delivered [{}]", fmt(&exp_a), fmt(&got))));
